@@ -311,3 +311,85 @@ def refute_rw(mod, proof, violations, ix, workdir, seed):
 
 for _p in proofs_rw:
     refuters[_p.name] = refute_rw
+
+
+# ---------------------------------------------------------------------------------------------
+# MultiLogRecordProcessor::OnEmit (sdk/src/logs/multi_log_record_processor.cc): "reaches every configured processor ... exactly once": for every
+# processor, in order, the recordable made for THAT processor is released from the multi recordable exactly once and, if there is one, handed to that
+# processor's OnEmit exactly once (loop invariant, any number of processors); a null record is ignored.
+from . import c02 as _c02
+TU_MLPE = _c02.TU_MLP
+MLPE_PRE = r"""
+size_t g_k;
+unsigned long g_rel_calls, g_emit_calls, g_w_rel_proc, g_w_rel_h, g_w_emit_proc, g_w_emit_h, g_w_emits, g_rel_mr;
+static void xc_havoc_ghosts(void) { size_t a; g_k = a; g_rel_calls = g_emit_calls = g_w_rel_proc = g_w_rel_h = g_w_emit_proc = g_w_emit_h = g_w_emits = g_rel_mr = 0; }
+typedef struct xc_procvec { xc_opaque **items; size_t count; } xc_procvec;
+#define MLPE_GHOSTS g_rel_calls, g_emit_calls, g_w_rel_proc, g_w_rel_h, g_w_emit_proc, g_w_emit_h, g_w_emits, g_rel_mr
+"""
+MLPE_POST = r"""
+/* MultiRecordable::ReleaseRecordable(processor): the recordable made for that processor (or none): any handle */
+static xc_opaque *xc_mr_Release(const xc_opaque *mr, const xc_opaque *proc) { unsigned long id; g_rel_mr = (unsigned long)mr; if (g_rel_calls == g_k) { g_w_rel_proc = (unsigned long)proc; g_w_rel_h = id; } g_rel_calls++; return (xc_opaque *)id; }
+static void xc_proc_OnEmit(const xc_opaque *proc, const xc_opaque *r) { if (g_rel_calls == g_k + 1) { g_w_emit_proc = (unsigned long)proc; g_w_emit_h = (unsigned long)r; g_w_emits++; } g_emit_calls++; }
+"""
+
+
+def _mlpe_types(em, base, targs, name):
+    if base == "std::vector" and targs and "LogRecordProcessor" in targs[0]:
+        return CT("xc_procvec")
+    if base == "std::unique_ptr" and targs:
+        last = targs[0].strip().split("::")[-1]
+        if last == "LogRecordProcessor":
+            return CT("xc_opaque", 1)
+        if last in ("Recordable", "MultiRecordable"):
+            return CT("xc_opaque", 1)       # recordables are identified by their address here
+    return None
+
+
+def _configure_mlpe(cfg):
+    common.sdk_trace_boundary(cfg)
+    common.chrono_boundary(cfg)
+    cfg.type_handlers.insert(0, _mlpe_types)
+    cfg.type_map["sdk::logs::MultiRecordable"] = "xc_opaque"
+    cfg.type_map["sdk::logs::Recordable"] = "xc_opaque"
+    cfg.opaque_records["sdk::logs::LogRecordProcessor"] = "xc_opaque"
+    if not hasattr(cfg, "seq_handlers"):
+        cfg.seq_handlers = {}
+    cfg.seq_handlers["std::vector"] = lambda em, seq, targs: ("(%s).items" % seq, "(%s).count" % seq)
+    cfg.seq_handlers["xc_procvec"] = cfg.seq_handlers["std::vector"]
+    unp = lambda r: (r["node"] if isinstance(r, dict) and r.get("xc_is_ptr") else r)
+    cfg.ext_methods["std::unique_ptr::get"] = lambda em, recv, args, n: recv
+    cfg.ext_methods["std::unique_ptr::operator->"] = lambda em, recv, args, n: recv
+    cfg.ext_methods["std::unique_ptr::operator*"] = lambda em, recv, args, n: "(*%s)" % recv
+    cfg.ext_methods["std::unique_ptr::operator bool"] = lambda em, recv, args, n: "(%s != NULL)" % recv
+    cfg.ctor_ext["std::unique_ptr"] = lambda em, node, args: (em.expr(args[0]) if args else "NULL")
+    cfg.ext_q["MultiRecordable::ReleaseRecordable"] = lambda em, node, recv, args: "xc_mr_Release(%s, %s)" % (em.expr(unp(recv)), em.addr_of(args[0]))
+    cfg.ext_q["LogRecordProcessor::OnEmit"] = lambda em, node, recv, args: "xc_proc_OnEmit(%s, %s)" % (em.expr(unp(recv)), em.expr(args[0]))
+
+
+MLPE = "MultiLogRecordProcessor_OnEmit"
+contracts_mlpe = {MLPE: {"pre":
+    "__CPROVER_requires(__CPROVER_is_fresh(self, sizeof(*self)) && self->processors_.count <= 64 && __CPROVER_is_fresh(self->processors_.items, self->processors_.count * sizeof(xc_opaque *)) && __CPROVER_is_fresh(record, sizeof(*record)))\n"
+    "__CPROVER_assigns(MLPE_GHOSTS)\n"
+    # a null record is ignored
+    "__CPROVER_ensures(*record == NULL ==> (g_rel_calls == 0 && g_emit_calls == 0))\n"
+    # otherwise every processor, in order, gets its own recordable released from THIS multi recordable exactly once ...
+    "__CPROVER_ensures(*record != NULL ==> (g_rel_calls == self->processors_.count && g_emit_calls <= g_rel_calls && (self->processors_.count > 0 ==> g_rel_mr == (unsigned long)*record)))\n"
+    "__CPROVER_ensures((*record != NULL && g_k < self->processors_.count) ==> g_w_rel_proc == (unsigned long)self->processors_.items[g_k])\n"
+    # ... and is handed exactly that recordable, exactly once, if there is one
+    "__CPROVER_ensures((*record != NULL && g_k < self->processors_.count) ==> (g_w_rel_h != 0 ? (g_w_emits == 1 && g_w_emit_proc == g_w_rel_proc && g_w_emit_h == g_w_rel_h) : g_w_emits == 0))\n",
+    "loops": {1: "__CPROVER_assigns(xc_i1, MLPE_GHOSTS)\n"
+                 "__CPROVER_loop_invariant(xc_i1 <= self->processors_.count && g_rel_calls == xc_i1 && g_emit_calls <= g_rel_calls && (xc_i1 > 0 ==> g_rel_mr == (unsigned long)*record))\n"
+                 "__CPROVER_loop_invariant(g_k < xc_i1 ==> (g_w_rel_proc == (unsigned long)self->processors_.items[g_k] && (g_w_rel_h != 0 ? (g_w_emits == 1 && g_w_emit_proc == g_w_rel_proc && g_w_emit_h == g_w_rel_h) : g_w_emits == 0)))\n"
+                 "__CPROVER_loop_invariant(g_k >= xc_i1 ==> g_w_emits == 0)\n"
+                 "__CPROVER_decreases(self->processors_.count - xc_i1)\n"}}}
+_pe = Proof("MultiLogRecordProcessor_OnEmit", [("MultiLogRecordProcessor::OnEmit", 1)], enforce=MLPE, timeout=300,
+            desc="fan-out of a log record: every processor gets the recordable made for it exactly once")
+_pe.tu = TU_MLPE
+_pe.pre_c = MLPE_PRE
+_pe.post_struct_c = MLPE_POST
+_pe.spec_headers = ("xc_trace_boundary.h",)
+_pe.force_records = ()
+_pe.configure = _configure_mlpe
+_pe.own_config = True
+_pe.contracts = contracts_mlpe
+proofs.append(_pe)
